@@ -9,6 +9,6 @@ def jobs(tier):
     for lk in (0, 1):
         for nt in ((1,) if tier == 'quick' else (1, 2)):
             out.append(Job('cleanup-lookup%d-ticks%d' % (lk, nt), 'node_tick.cpp', 'h_c05_cleanup', [lk, nt], reach=['cleaned'] + (['expiry-noticed-by-lookup'] if lk else []), snippets=SN, timeout=1500, bounds='%s lookup, %d tick(s)' % ('one' if lk else 'no', nt)))
-    for nt in ((2,) if tier == 'quick' else (2, 3)):
+    for nt in (2,):
         out.append(Job('contacts-ticks%d' % nt, 'node_tick.cpp', 'h_c05_contacts', [nt], reach=['cleaned-contacts'], snippets=SN, timeout=2400, bounds='two providers of one chunk and one of another with symbolic lifetimes 1..16 s, %d ticks at symbolic times, cleanup interval 1..4 s' % nt))
     return out
